@@ -46,6 +46,7 @@ type Thread struct {
 	Parked   bool
 	Observer bool
 	Steps    int
+	raceHits map[uintptr]int // per call site: how often this thread parked at a race-directed point
 	desc     string
 	entry    string
 	parent   uint64
@@ -278,11 +279,32 @@ func (s *Sched) park(kind string, ls *LockState, read bool) {
 	<-t.gate
 }
 
+// RaceHitCap bounds how often one thread parks at one race-directed point (rewrite -racepoints) per
+// execution: such points can sit in loops that run hundreds of times per call; later hits pass
+// through, so executions stay short and the interleavings around the first hits are all explored.
+const RaceHitCap = 4
+
 // Point parks the calling goroutine until the explorer schedules it.
 func Point(kind string) {
 	s := cur.Load()
 	if s == nil {
 		return
+	}
+	if kind == "race" {
+		var pc [1]uintptr
+		runtime.Callers(2, pc[:])
+		g := goidasm.ID()
+		s.mu.Lock()
+		t := s.thread(g)
+		if t.raceHits == nil {
+			t.raceHits = map[uintptr]int{}
+		}
+		t.raceHits[pc[0]]++
+		over := t.raceHits[pc[0]] > RaceHitCap
+		s.mu.Unlock()
+		if over {
+			return
+		}
 	}
 	s.park(kind, nil, false)
 }
